@@ -291,7 +291,7 @@ class HGen:
             ctok, cval = self.pick_ctx()
             tt = r.choice(["-", "-", "forever", "ephemeral", "head:2", "time:60000", "BAD:head:0", "BAD:time:-1",
                            "BAD:never", "BAD:head:x", "BAD:time:18446744073709551616"])
-            mk = r.choice(["-", "-", "ok", "ok", "b64", "utf8", "json", "nonascii"])
+            mk = r.choice(["-", "-", "ok", "ok", "b64", "utf8", "utf8s", "json", "nonascii"])
             meta = r.choice(METAS[1:]) if mk == "ok" else None
             return self.mk_append(topic, ctok, cval, tt, mk, meta, None, r.choice(BODIES))
         if k in ("get", "remove"):
@@ -304,7 +304,7 @@ class HGen:
         if k == "head":
             topic = r.choice(TOPICS)
             ctok, cval = self.pick_ctx()
-            q = "" if ctok == "-" else ("?context=" + (id_to_s(cval) if cval is not None else "nope"))
+            q = "" if ctok == "-" else ("?" + "&".join(self.decoy_ctx() + ["context=" + (id_to_s(cval) if cval is not None else "nope")]))
             return dict(kind=k, toks=["head", xh(topic), ctok], raw=render("GET", "/head/" + topic + q))
         if k == "cat":
             sse = r.random() < 0.3
@@ -352,9 +352,16 @@ class HGen:
             return dict(kind=k, toks=["version"], raw=render("GET", "/version"))
         return dict(kind="notfound", toks=["notfound"], raw=render(self.r.choice(["PUT", "PATCH"]), "/" + self.r.choice(["a", "cas", ""])))
 
+    def decoy_ctx(self):
+        """an earlier occurrence of the `context` parameter (the last one is in force): another context, or garbage"""
+        if self.r.random() < 0.25:
+            return ["context=" + self.r.choice([id_to_s(self.r.choice(self.ctxs)), id_to_s(self.r.randrange(1, 2 ** 64)), "garbage", ""])]
+        return []
+
     def mk_append(self, topic, ctok, cval, tt, mk, meta, _unused, body, raw_path=None):
         q = []
         if ctok != "-":
+            q += self.decoy_ctx()
             q.append("context=" + (id_to_s(cval) if cval is not None else "nope"))
         ttok = "-"
         if tt != "-":
@@ -371,6 +378,9 @@ class HGen:
             headers["xs-meta"] = "!!!not-base64"; mtok = "b64"
         elif mk == "utf8":
             headers["xs-meta"] = base64.b64encode(b"\xff\xfe").decode(); mtok = "utf8"
+        elif mk == "utf8s":
+            # invalid UTF-8 INSIDE a JSON string literal: still "not valid UTF-8", not a lossy replacement
+            headers["xs-meta"] = base64.b64encode(self.r.choice([b'{"a":"\xff"}', b'{"a":"x\xc3"}', b'{"k":"\xed\xa0\x80"}'])).decode(); mtok = "utf8"
         elif mk == "json":
             headers["xs-meta"] = base64.b64encode(b"{not json").decode(); mtok = "json"
         elif mk == "nonascii":
